@@ -27,6 +27,7 @@ package cbor
 
 //@ func cbor.u64Bytes
 //@   params u64
+//@   local be = Phi#1 | Slice#2 | Slice#4 | Slice#5 | call:encoding/binary.bigEndian.AppendUint64#1
 //@   props C11 C12(sweep) C10(sweep)
 //@   sweep bounds,panic
 //@   pure
@@ -79,6 +80,7 @@ package cbor
 
 //@ func cbor.Decoder.decodePositive
 //@   params d rv additional
+//@   local kind = Phi#1 | call:reflect.Value.Kind#1 | call:reflect.Value.Kind#2
 //@   props C11 C12(sweep) C10(sweep)
 //@   sweep bounds,panic
 //@   requires @len8 len(additional) <= 8
@@ -87,6 +89,7 @@ package cbor
 
 //@ func cbor.Decoder.decodeNegative
 //@   params d rv additional
+//@   local kind = Phi#1 | call:reflect.Value.Kind#1 | call:reflect.Value.Kind#2
 //@   props C11 C12(sweep) C10(sweep)
 //@   sweep bounds,panic
 //@   requires @len8 len(additional) <= 8
@@ -105,6 +108,10 @@ package cbor
 
 //@ func cbor.Decoder.typeInfo
 //@   params d
+//@   local additional = Phi#1 | Slice#2 | Slice#3 | Slice#4 | Slice#5
+//@   local err = extract1:call:io.ReadFull#1 | extract1:call:io.Reader.Read#1
+//@   local highThreeBits = BinOp#2
+//@   local lowFiveBits = BinOp#3
 //@   props C12 C11 C10(sweep)
 //@   sweep bounds,panic,make,nilmem
 //@   makelimit 8
@@ -115,6 +122,9 @@ package cbor
 // 0xf6 / 0xf7): every other head is either consumed as the expected type or an error
 //@ func cbor.Decoder.unwrap
 //@   params d allowedTypes
+//@   local err = extract3:call:cbor.Decoder.typeInfo#1
+//@   local highThreeBits = extract0:call:cbor.Decoder.typeInfo#1
+//@   local lowFiveBits = extract1:call:cbor.Decoder.typeInfo#1
 //@   props C12 C10(sweep)
 //@   sweep bounds,panic,make,nilmem
 //@   callsites Errorf 2
@@ -139,6 +149,9 @@ package cbor
 
 //@ func cbor.BytewiseLexicalSort$1
 //@   params i j
+//@   local indices = UnOp#2 | UnOp#6
+//@   local k = Phi#1
+//@   local keys = UnOp#1 | UnOp#5
 //@   props C11 C12(sweep)
 //@   sweep bounds,panic
 //@   ghost gk
@@ -190,6 +203,7 @@ package cbor
 
 //@ func cbor.Decoder.decodeMap
 //@   params d rv additional
+//@   local actualKeyType = Phi#4 | call:reflect.Type.Key#1 | call:reflect.Value.Type#5
 //@   props C12 C10(sweep,assert)
 //@   sweep bounds,panic,make,nilmem
 //@   requires @len8 len(additional) <= 8
@@ -208,6 +222,8 @@ package cbor
 
 //@ func cbor.Unmarshal
 //@   params data v
+//@   local buf = call:bytes.NewBuffer#1
+//@   local err = call:cbor.Decoder.Decode#1
 //@   props C12
 //@   sweep bounds,panic,make,nilmem
 //@   modifies v
@@ -217,6 +233,7 @@ package cbor
 
 //@ func cbor.ByteWrap.UnmarshalCBORStream
 //@   params b r o flattened
+//@   local n = extract0:call:cbor.Decoder.UnwrapBytes#1
 //@   props C12 C10(sweep)
 //@   sweep bounds,panic,make,nilmem
 //@   makelimit 100000
@@ -227,6 +244,7 @@ package cbor
 // the wrapped item is decoded from a reader confined to the declared length
 //@ func cbor.Bstr.UnmarshalCBORStream
 //@   params b r o flattened
+//@   local n = extract0:call:cbor.Decoder.UnwrapBytes#1
 //@   props C12 C10(sweep)
 //@   sweep bounds,panic,make,nilmem
 //@   makelimit 100000
@@ -264,6 +282,9 @@ package cbor
 // sort function over the MARSHALED keys; by default that is BytewiseLexicalSort.
 //@ func cbor.Encoder.encodeMap
 //@   params e length keys get
+//@   local i = BinOp#3 | BinOp#7 | UnOp#4
+//@   local indices = MakeSlice#2
+//@   local marshaledKeys = MakeSlice#1
 //@   props C11
 //@   sweep make,nilmem
 //@   requires @length length >= 0
